@@ -74,6 +74,7 @@ type TreeOpts struct {
 	Minimal   bool // no siblings, no templates, single alias (enumerated phases)
 	CB        func(t *Tape, level int, role string, onPath bool) CB
 	Templates []int // allowed template indices (nil = all)
+	SubBare   bool  // sub-commands declare nothing (template 0): such a tree can be run again on the same object
 	Policy    int   // -1 = draw
 }
 
@@ -97,6 +98,16 @@ func (tc *TreeCase) Argv() []string {
 }
 
 func (tc *TreeCase) Depth() int { return len(tc.Path) - 1 }
+
+// cloneTokens returns a copy that shares the application but owns its command line.
+func (tc *TreeCase) cloneTokens() *TreeCase {
+	cp := *tc
+	cp.Tokens = make([][]string, len(tc.Tokens))
+	for i, toks := range tc.Tokens {
+		cp.Tokens[i] = append([]string(nil), toks...)
+	}
+	return &cp
+}
 
 var policies = []flag.ErrorHandling{flag.ContinueOnError, flag.ExitOnError, flag.PanicOnError}
 
@@ -145,7 +156,10 @@ func genTree(t *Tape, o TreeOpts) *TreeCase {
 		tpl := 0
 		var toks []string
 		if !o.Minimal {
-			if o.Templates != nil {
+			if o.SubBare && lvl > 0 {
+				t.Draw(1)
+				tpl = 0
+			} else if o.Templates != nil {
 				tpl = o.Templates[t.Draw(len(o.Templates))]
 			} else {
 				tpl = t.Draw(len(levelTpls))
